@@ -175,6 +175,43 @@ def replay_population(col, item):
         tree.remove()
 
 
+def replay_single_file(col, item):
+    """A path without placeholders is a single-file fileset: its coverage is the time_coverage it was given."""
+    from typhon.files import FileSet
+    from typhon.files.fileset import NoFilesError
+    import tempfile
+    case, emb_name = item
+    emb = EMBEDDINGS[emb_name]
+    (fid, t0, t1, tag), = [tuple(f) for f in case["F"]]
+    root = tempfile.mkdtemp(prefix="verif-fs1-")
+    try:
+        path = os.path.join(root, "single_file.dat")
+        open(path, "wb").close()
+        fs = FileSet(path, time_coverage=(emb.t(t0), emb.t(t1)))
+        for q in case["qs"]:
+            s, e, xn, xp, white, black, exp = q
+            if xn or xp or white or black:
+                continue
+            try:
+                got = [x.path for x in fs.find(emb.t(s), emb.t(e), no_files_error=False)]
+            except Exception as ex:
+                col.violation("single-file-find-raises-" + type(ex).__name__, {"abstract": {"F": case["F"], "s": s, "e": e}, "observed": repr(ex)[:200]})
+                continue
+            col.count(1)
+            if (got == [path]) != bool(exp) or len(got) > 1:
+                col.violation("single-file-find-wrong", {"abstract": {"F": case["F"], "s": s, "e": e}, "concrete": {"embedding": emb_name},
+                                                         "expected": bool(exp), "observed": got})
+        for h, exp in case["cont"]:
+            col.count(1)
+            if (emb.half(h) in fs) != exp:
+                col.violation("single-file-contains", {"abstract": {"F": case["F"], "half_tick": h}, "expected": exp})
+                break
+        col.nontrivial.add(("single-file", json.dumps(case["F"])))
+    finally:
+        import shutil
+        shutil.rmtree(root, ignore_errors=True)
+
+
 def styles_for(case, emb_name=None):
     import datetime as _dt
     durs = {f[2] - f[1] for f in case["F"]}
@@ -238,7 +275,7 @@ def record_session(rng, tid, emb_name, layout, nfiles, T):
             try:
                 if mode in (0, 1):
                     srt = mode == 0
-                    out = tree.ids(call_find(tree, fs, emb, s, e, filters_of(white, black), sort=srt))
+                    out = tree.ids(call_find(tree, fs, emb, s, e, filters_of(white, black), sort=srt, only_path=bool(k % 2)))
                     calls.append(dict(base, op="find", sorted=srt, ok=True, out=out))
                 elif mode == 2:
                     nb = rng.choice([1, 2, 3, 5])
@@ -369,6 +406,8 @@ def run(ctx):
                 items.append((c, emb_name, layout, pick_style(styles_for(c, emb_name), layout, n + k),
                               {"contains": k % 3 == 0, "zip": (n + k) % 7 == 3}))
     pmap(ctx, replay_population, items)
+    singles = [c for c in cases if len(c["F"]) == 1]
+    pmap(ctx, replay_single_file, [(c, list(EMBEDDINGS)[n % len(EMBEDDINGS)]) for n, c in enumerate(singles[:: (3 if quick else 1)])])
     ctx.traces += len(items)
     ctx.sample({"population": cases[-1]["F"], "first_queries_with_oracle": cases[-1]["qs"][:3],
                 "replayed_as": list(items[-1][1:4])})
